@@ -92,9 +92,16 @@ def rand_title(rng, allow_empty=True) -> str:
     r = rng.random()
     if allow_empty and r < 0.15:
         return ""
+    if r > 0.8:
+        # free text as people write it: words that name units or quantities must stay plain text for every reader
+        return " ".join(rng.choice(TITLE_WORDS) for _ in range(rng.randint(1, 6)))
     n = rng.choice([1, 2, 5, 12, 30, 79, 80, 81, 200]) if r < 0.5 else rng.randint(1, 40)
     t = "".join(rng.choice(TITLE_CHARS) for _ in range(n)).strip()
     return t or "t"
+
+
+TITLE_WORDS = ["energy", "E(MP2)", "=", "-76.332", "a.u.", "bohr", "Bohr", "BOHR", "angstrom", "Angstrom", "Angs", "AU", "au",
+               "nm", "eV", "hartree", "kcal/mol", "step", "frame", "12", "in", "coordinates", "geometry", "optimized", "water"]
 
 
 def rand_mag(rng, d: int, int_digits: int, allow_wide: bool = False):
